@@ -21,6 +21,8 @@ ASSUMPTIONS = ["integer values, totals far below 2^53", "ILP: CBC as shipped; a 
 WIDE = {"wide": tuple(range(1, 11)), "fib": (1, 2, 3, 5, 8, 13, 21), "near": (8, 9, 10, 11, 12, 13), "pow2": (1, 2, 4, 8, 16, 32)}
 
 
+SPREAD9 = (3, 7, 12, 19, 28, 41, 57, 77, 97)
+PRIMES10 = (11, 13, 17, 19, 23, 29, 31, 37, 41, 43)
 SEP_TEXT = ("the 1091 objective-separating instances found by complete enumeration of all multisets of 6 items over 1..24 (k=3), 7 over 1..20 (k=3), "
             "7 over 1..16 (k=4), 8 over 1..14 (k=3) (tools/gen_separating.py): ckk/snp/rnp, dp x 3 objectives x both output families, cg x 3 objectives x {all switches on, all off}; thorough: cg x 48, ilp x 3")
 
@@ -36,6 +38,7 @@ def bounds(tier):
                 "spread (quick)": "5..6 items over fibonacci and powers of two, k=3..4",
                 "named": "values 0..5, 2..5 items, k=2..3, dict with integer names: all exact algorithms and all cg configurations",
                 "separating": SEP_TEXT,
+                "spread9": "all 24 310 multisets of 9 items over (3,7,12,19,28,41,57,77,97), k=4: rnp",
                 "big": "values {0, 1, 2**24+1, 2**31+1, 2**32+3, 2**40+5}, 2..5 items, k=2..4: ckk/snp/rnp/dp (all objectives); cg 48 configurations k=2..3"}
     return {"dense": "values 0..7, 1..8 items, 1..6 bins",
             "wide": "values 1..10 (7 items), fibonacci/near-equal/powers-of-two alphabets (6..8 items), k=2..5",
@@ -45,6 +48,7 @@ def bounds(tier):
             "offset": "letters {b/2+7, b+1, b+5, b+6, 2b+1, 2b+8} for b in {1e5, 1e6, 2**24, 1e9}, 3..6 items, k=2..3: ckk/snp/rnp/dp (all objectives, both output families), cg x 3 objectives x {all switches on, all off}",
             "named": "values 0..5, 2..5 items, k=2..3, dict with integer names: all exact algorithms and all cg configurations",
             "separating": SEP_TEXT,
+            "spread9": "all multisets of 9 items over (3,7,12,19,28,41,57,77,97), k=4, and over the primes 11..43, k=4..5: rnp, snp, ckk",
             "big": "values {0, 1, 2**24+1, 2**31+1, 2**32+3, 2**40+5}, 2..6 items, k=2..4: ckk/snp/rnp/dp (all objectives); cg 48 configurations k=2..3"}
 
 
@@ -87,6 +91,13 @@ def tasks(tier):
     sep, _ = scopes.separating_instances()
     for ch in spaces.chunked(sep, 12):
         ts.append(("separating", ch, None, tier))
+    # nine items with values spread over 3..97 (roughly quadratic steps): the recursive searches make several improvements and
+    # most optimal partitions have few routes through the top-level splits; optimum from the sum-vector DP
+    for ch in scopes.chunk_multisets(SPREAD9, 9, 9, 60):
+        ts.append(("spread9", ch, (4,), tier))
+    if not q:
+        for ch in scopes.chunk_multisets(PRIMES10, 9, 9, 60):
+            ts.append(("spread9", ch, (4, 5), tier))
     # named items whose names are integers larger than, and anti-correlated with, the values
     for ch in scopes.chunk_multisets(range(0, 6), 2, 5, 40):
         ts.append(("named-cg", ch, (2, 3), tier))
@@ -158,6 +169,15 @@ def run_task(task):
     kind = scope.split("-")[-1] if "-" in scope else scope
     if scope == "long-thin":
         return _long_thin(acc, chunk, tier)
+    if scope == "spread9":
+        for ms in chunk:
+            for k in ks:
+                acc.point(nontrivial=True)
+                for a in (("rnp",) if tier == "quick" else ("rnp", "snp", "ckk")):
+                    _judge(acc, {"algo": a, "items": list(ms), "k": k, "out": "Sums", "kw": {}, "dp_oracle": True}, "MinimizeDifference")
+        acc.sample({"scope": scope, "items": list(chunk[0]), "k": list(ks)})
+        O.opt_partition_dp.cache_clear()
+        return acc
     if scope == "separating":
         for items, k, fl in chunk:
             ms = list(items)
